@@ -26,7 +26,7 @@ import vf
 
 PID = "C09"
 
-PREDS = ["NothingUnreadable", "NothingDropped", "OrderPreserved", "FlagExact", "ExpiredNeverHonoured"]
+PREDS = ["NothingUnreadable", "NothingDropped", "OrderPreserved", "FlagExact", "FlagNotStale", "ExpiredNeverHonoured"]
 PRED_DOC = {
     "NothingUnreadable": "every surviving element / leaf / head node / secret of the real output is readable under the per-type rule "
                          "(facts read off the real authorizer); no invented element or map entry",
@@ -35,6 +35,9 @@ PRED_DOC = {
     "OrderPreserved": "the surviving labels form a subsequence of the input labels (slices; Go maps are exempt)",
     "FlagExact": "ResultsFilteredByACLs (and IndexedServiceTopology.FilteredByACLs) is true exactly when the real output lost an "
                  "element, leaf or head node; removal of un-named prepared queries alone may or may not be flagged",
+    "FlagNotStale": "a reply object is re-used by blockingquery.Query (payload re-populated, QueryMeta kept): when Filter is entered with "
+                    "ResultsFilteredByACLs already true (prior=yes, set directly or left by a real first evaluation on the same object) and this "
+                    "evaluation removes nothing, the flag must be false on exit; the specified flag never depends on the prior value",
     "ExpiredNeverHonoured": "a resolution that started after the token's ExpirationTime yields no authorizer that allows anything "
                             "the token's policy grants, whatever the identity cache / store row / RPC reachability",
     "ValidHonoured": "(non-vacuity, infrastructure if it fails) a resolution that finished before ExpirationTime with the row stored "
@@ -116,7 +119,8 @@ def _validate_chunks(paths_rows, work, par=4, chunk=30000):
 
 
 def _case_of(ev):
-    return {"kind": ev["kind"], "acl": ev["acl"], "groups": ev["in"]}
+    # a second evaluation on a re-used reply (seq 2) replays as the same content entered with the recorded prior flag
+    return {"kind": ev["kind"], "acl": ev["acl"], "prior": ev.get("prior", "no"), "groups": ev["in"]}
 
 
 def _removed(ev):
@@ -128,7 +132,7 @@ def _removed(ev):
 def _vacuity(rows):
     """Every case of the type switch must have been exercised, with and without removal, flag raised and not."""
     problems = []
-    per = collections.defaultdict(lambda: {"n": 0, "removed": 0, "kept": 0, "yes": 0, "no": 0})
+    per = collections.defaultdict(lambda: {"n": 0, "removed": 0, "kept": 0, "yes": 0, "no": 0, "prior_yes": 0, "prior_yes_kept": 0, "reeval": 0})
     after = collections.Counter()
     before_ok = 0
     for e in rows:
@@ -138,6 +142,12 @@ def _vacuity(rows):
             s["removed" if _removed(e) else "kept"] += 1
             if e["flag"] in ("yes", "no"):
                 s[e["flag"]] += 1
+            if e["prior"] == "yes":
+                s["prior_yes"] += 1
+                if not _removed(e):
+                    s["prior_yes_kept"] += 1
+            if e.get("seq") == 2:
+                s["reeval"] += 1
         elif e["cmd"]["op"] == "resolve":
             if e["phase"] == "after":
                 after[json.dumps(e["cfg"], sort_keys=True)] += 1
@@ -154,6 +164,8 @@ def _vacuity(rows):
             problems.append("%s: removal=%d no-removal=%d" % (k, s["removed"], s["kept"]))
         if (s["yes"] + s["no"]) and (s["yes"] == 0 or s["no"] == 0):
             problems.append("%s: flag yes=%d no=%d" % (k, s["yes"], s["no"]))
+        if (s["yes"] + s["no"]) and s["prior_yes_kept"] == 0:
+            problems.append("%s: entered with the flag raised %d times, %d of them with nothing to remove" % (k, s["prior_yes"], s["prior_yes_kept"]))
     if len(after) < 7:
         problems.append("expiry: only %d of 7 resolver configurations resolved after expiry" % len(after))
     if before_ok == 0:
@@ -170,7 +182,7 @@ def _source_switch_cases():
     return len(re.findall(r"^\tcase ", m.group(1), re.M))
 
 
-SELFTEST_MUTATIONS = ["drop", "leak", "swap", "flag", "honour"]
+SELFTEST_MUTATIONS = ["drop", "leak", "swap", "flag", "stale", "honour"]
 
 
 def _selftest_rows(rows):
@@ -189,7 +201,11 @@ def _selftest_rows(rows):
     d["out"][0]["items"] = [{"lab": it["lab"], "tok": "na", "subs": []} for it in d["in"][0]["items"]]
     out.append(("leak", "NothingUnreadable", d))
     d = json.loads(json.dumps(e)); its = d["out"][0]["items"]; its[0], its[1] = its[1], its[0]; out.append(("swap", "OrderPreserved", d))
-    d = json.loads(json.dumps(e)); d["flag"] = "no" if d["flag"] == "yes" else "yes"; out.append(("flag", "FlagExact", d))
+    d = json.loads(json.dumps(e)); d["prior"] = "no"; d["flag"] = "no" if d["flag"] == "yes" else "yes"; out.append(("flag", "FlagExact", d))
+    y = find(lambda e: e["t"] == "filter" and e["prior"] == "yes" and e["flag"] == "no" and not _removed(e))
+    if y is None:
+        raise vf.Infra("selftest: no event entered with the flag raised and nothing removed")
+    y["flag"] = "yes"; out.append(("stale", "FlagNotStale", y))
     x = find(lambda e: e["t"] == "expiry" and e["cmd"]["op"] == "resolve" and e["phase"] == "after")
     if x is None:
         raise vf.Infra("selftest: no resolve-after-expiry event")
@@ -279,9 +295,10 @@ def run(tier):
                 pred_hits[nm] += 1
                 if ev["t"] == "filter":
                     sig = "%s:%s:%s" % (PID, nm, ev["kind"])
-                    what = "%s rejected by TLC: %s under authorizer %s acl=%s in=%s out=%s flag=%s (%d runs with fresh maps, %d distinct outcomes)" % (
+                    what = "%s rejected by TLC: %s under authorizer %s acl=%s in=%s out=%s flag_on_entry=%s%s flag=%s (%d runs with fresh maps, %d distinct outcomes)" % (
                         nm, ev["kind"], ev["az"], ev["acl"], json.dumps([[(i["lab"], i["n"], i["s"], i["g"], i["x"]) for i in gr["items"]] for gr in ev["in"]])[:400],
-                        json.dumps([[i["lab"] for i in gr["items"]] for gr in ev["out"]])[:300], ev["flag"], ev["reps"], ev["outcomes"])
+                        json.dumps([[i["lab"] for i in gr["items"]] for gr in ev["out"]])[:300], ev["prior"],
+                        " (left by a real first evaluation on the same reply object)" if ev.get("seq") == 2 else "", ev["flag"], ev["reps"], ev["outcomes"])
                     rp = {"kind": "filter-case", "case": _case_of(ev), "az": ev["az"], "predicate": nm}
                 else:
                     sig = "%s:%s:%s" % (PID, nm, ev["cmd"]["op"])
@@ -291,16 +308,25 @@ def run(tier):
                 verdict.add(sig, what, rp)
         if infra:
             raise vf.Infra("trace events outside the model (not a verdict): %s" % "; ".join(infra[:3]))
-        problems, per, after = _vacuity(rows)
-        if problems:
-            raise vf.Infra("vacuity: " + "; ".join(problems[:6]))
-        st = _selftest(rows, binary, work)
-        if not all(st.values()):
-            raise vf.Infra("binding selftest: mutations not rejected: %s" % sorted(k for k, v in st.items() if not v))
-        mc = mc_f.result()
-        if tier == "thorough" and mc.coverage_zero:
-            raise vf.Infra("vacuity: model actions never taken: %s" % mc.coverage_zero[:10])
+        # rejected steps of the real code come first; vacuity / selftest problems of a run that already has a
+        # violation are reported as a note (a defect may well starve a vacuity counter or the selftest's seed event)
         n_new = verdict.finish()
+        problems, per, after = _vacuity(rows)
+        st = {}
+        try:
+            if problems:
+                raise vf.Infra("vacuity: " + "; ".join(problems[:6]))
+            st = _selftest(rows, binary, work)
+            if not all(st.values()):
+                raise vf.Infra("binding selftest: mutations not rejected: %s" % sorted(k for k, v in st.items() if not v))
+            mc = mc_f.result()
+            if tier == "thorough" and mc.coverage_zero:
+                raise vf.Infra("vacuity: model actions never taken: %s" % mc.coverage_zero[:10])
+        except vf.Infra as ex:
+            if not n_new:
+                raise
+            vf.log("note (run has violations, not an infrastructure verdict): %s" % str(ex)[:400])
+            mc = mc_f.result()
 
         nontrivial = set()
         n_filter = n_exp = 0
@@ -342,6 +368,9 @@ def run(tier):
             "expiry_resolutions_by_phase": {k: m_xg["resolves_by_phase"].get(k, 0) + m_xr["resolves_by_phase"].get(k, 0) for k in ("before", "after", "ambiguous")},
             "expiry_after_by_config": dict(after),
             "order_dependent_cases": m_gen["order_dependent_cases"] + m_rnd["order_dependent_cases"],
+            "prior_flag_true_events": sum(v["prior_yes"] for v in per.values()),
+            "prior_flag_true_and_nothing_removed": sum(v["prior_yes_kept"] for v in per.values()),
+            "second_evaluations_on_reused_reply": m_gen.get("reevaluations", 0) + m_rnd.get("reevaluations", 0),
             "random": {"seed": seed, "filter_cases": T["rnd"], "expiry_histories": T["rndx"]},
             "samples": samples,
             "predicates": PREDS, "predicate_doc": PRED_DOC,
@@ -349,7 +378,7 @@ def run(tier):
             "known_findings_matched": verdict.known_hit,
             "binding_selftest": st,
             "model_check": {"distinct": mc.distinct, "generated": mc.generated, "wall_s": round(mc.wall, 1),
-                            "invariants": ["InvRefConforms", "InvPredicatesBite", "InvLoopsRefine", "InvExportedFlag", "InvExpired", "InvValid", "InvMask"],
+                            "invariants": ["InvRefConforms", "InvFlagIgnoresPrior", "InvPredicatesBite", "InvLoopsRefine", "InvExportedFlag", "InvExpired", "InvValid", "InvMask"],
                             "actions_never_taken": mc.coverage_zero[:20]},
             "exhaustive": False,
         }
